@@ -15,7 +15,14 @@ DRV = 'drv_c04'
 
 REGISTRY = {
     'id': 'C04',
-    'text': 'Lean theorems about an executable model of fragmentation.py (span lists = prefixes/suffixes/strictly internal/single '
+    'text': 'Mechanical tie for the pure core of fragmentation.py: harness/translate_fragcore.py reads the CURRENT source with ast and '
+            'emits Generated/FragCorePy.lean (get_number, get_label, Fragment.number, Fragment.label, _label_shift, get_losses, '
+            '_get_forward/backward/internal/immonium/terminal_fragments = the span enumerators and the ion types handed on, the loop '
+            'nest and the loop body of _build_fragments incl. the row of every return type); Props/C04Gen proves each equal to the hand '
+            'model (GenFrag.f = Fragment.f by rfl), so the theorems below hold for the definitions read off the source; a function '
+            'outside the subset is reported as untranslated and stays tied by correspondence (fragment, Fragmenter, slice, adjust_mass '
+            'are hand-modelled). '
+            'Lean theorems about an executable model of fragmentation.py (span lists = prefixes/suffixes/strictly internal/single '
             'residues, duplicate free; the key list of fragment is duplicate free and is exactly the product ion type x its spans x '
             'isotopes x applicable losses x charges; each mass = table offset + sum of the per-residue components of its own span; all '
             'return types and Fragmenter are projections of one list; numbering/label laws; slices carry the mods of their residues '
@@ -24,7 +31,8 @@ REGISTRY = {
             'composition path for isotope-labelled peptides with the label shift keyed by ion type and charge) the ion mass equals '
             'mass(ion sequence, ion type, charge, isotope, loss). The model is tied to /repo by differential correspondence (fragment, Fragmenter, get_losses, get_number, '
             'get_label, slice, span helpers); the numeric clause "ion mass = mass(ion sequence, ...)" is evaluated on the real code',
-    'note': 'trusted: Lean kernel, axioms propext/Classical.choice/Quot.sound, the correspondence harness; masses are abstract in the '
+    'note': 'trusted: Lean kernel, axioms propext/Classical.choice/Quot.sound, the fragmentation.py subset reader translate_fragcore.py '
+            '(its output is small and diffable), the correspondence harness; masses are abstract in the '
             'model (per-residue components and table constants are sent from Python as exact rationals), regex matching of loss '
             'patterns other than character classes is computed on the Python side, iteration order of the Python loss set is not modelled',
     'technique': 'Lean 4 proof about executable model + differential correspondence + direct oracle on the implementation',
@@ -916,9 +924,21 @@ def run(chk):
     tier, rng = chk.tier, chk.rng
     import time
     t0 = time.time()
-    chk.lean_build(['PeptVerif.Props.C04', 'PeptVerif.Props.C04Mass'], DRV)
+    # fragmentation.py -> Generated/FragCorePy.lean + Props/C04Gen.lean (GenFrag.f = Fragment.f), regenerated on change
+    try:
+        from .. import translate_fragcore
+        gen_done, gen_unt = translate_fragcore.translate(chk)
+    except Exception as e:  # noqa  (the translator itself never raises; this guards its import)
+        gen_done, gen_unt = [], {'translate_fragcore': type(e).__name__}
+        chk.generated_changed.append('untranslated:translate_fragcore')
+    chk.lean_build(['PeptVerif.Props.C04', 'PeptVerif.Props.C04Mass', 'PeptVerif.Props.C04Gen'], DRV)
     chk.notes.append('lean build + axiom audit: %.1f s' % (time.time() - t0))
     chk.trusted += [
+        'harness/translate_fragcore.py: the reading of a tiny Python subset of fragmentation.py (if/elif on ion-type sets and string '
+        'literals, int arithmetic, f-string / + concatenation of label parts, tuples, list literals and comprehensions over range / '
+        'span lists, calls of the span builders with the defaults read from spans.py, keyword pass-through calls, the five-loop nest '
+        'and the return-type chain of _build_fragments, the accumulator loops of get_losses) into the combinators of the hand model; '
+        'translated on this run: %s%s' % (', '.join(gen_done), ''.join('; NOT translated: %s (%s)' % kv for kv in gen_unt.items())),
         'masses are abstract in the Lean model: the per-residue components (mass(c, charge=0, ion_type="n") for c in split()) and the '
         'table constants (PROTON_MASS, NEUTRON_MASS, *_FRAGMENT_ADJUSTMENTS, *_FRAGMENT_ION_ADJUSTMENTS) are computed by the '
         'implementation and sent to the model as exact rationals; the clause "ion mass = mass(ion sequence, ...)" is therefore checked '
@@ -1224,7 +1244,8 @@ def run(chk):
     if tier == 'thorough':
         chk.leanchecker(['PeptVerif.Model.Fragment', 'PeptVerif.Lemmas.Fragment', 'PeptVerif.Lemmas.FragmentMass',
                          'PeptVerif.Lemmas.FragmentLabel',
-                         'PeptVerif.Props.C04', 'PeptVerif.Props.C04Mass'])
+                         'PeptVerif.Props.C04', 'PeptVerif.Props.C04Mass', 'PeptVerif.Generated.FragCorePy',
+                         'PeptVerif.Props.C04Gen'])
     return chk.finish(classify)
 
 
